@@ -21,3 +21,28 @@ func runControls(ctl *Ctx, r *Report, names []string) {
 		}
 	}
 }
+
+func init() {
+	ordCtl := func(fnName string, wantFail bool) controlFn {
+		return func(c *Ctx) (bool, string) {
+			r := NewReport("CTL")
+			for _, n := range []string{"ORD-source", "ORD-O1", "ORD-escape", "ORD-flow", "ORD-prim", "ORD-total"} {
+				r.Rule(n, "", 0)
+			}
+			runORD(c, r)
+			fails := 0
+			for _, o := range r.Obs {
+				if o.Func == fnName && (o.Status == Violated || o.Status == Undecided) {
+					fails++
+				}
+			}
+			if wantFail {
+				return fails > 0, "ORD did not report " + fnName
+			}
+			return fails == 0, "ORD reported clean function " + fnName
+		}
+	}
+	controlTable["ord-maprange-escape"] = ordCtl("OrdMapRangeEscape", true)
+	controlTable["ord-mapkeys-concat"] = ordCtl("OrdMapKeysConcat", true)
+	controlTable["ord-clean"] = ordCtl("OrdClean", false)
+}
